@@ -35,7 +35,7 @@ func (t *inProcessTransport) Close() error {
 }
 
 func (t *inProcessTransport) Send(_ context.Context, e envelope) error {
-	if !t.Connected() {
+	if t.isClosed() {
 		return errors.New("transport is closed")
 	}
 	t.remote.envChan <- e
@@ -43,13 +43,26 @@ func (t *inProcessTransport) Send(_ context.Context, e envelope) error {
 }
 
 func (t *inProcessTransport) Receive(ctx context.Context) (envelope, error) {
-	if !t.Connected() {
+	// The envelopes sent by the remote party before closing the
+	// transport (like a finished session) should still be delivered.
+	select {
+	case e := <-t.envChan:
+		return e, nil
+	default:
+	}
+
+	if t.isClosed() {
 		return nil, errors.New("transport is closed")
 	}
 	select {
 	case <-ctx.Done():
 		return nil, fmt.Errorf("receive: %w", ctx.Err())
 	case <-t.done:
+		select {
+		case e := <-t.envChan:
+			return e, nil
+		default:
+		}
 		return nil, errors.New("transport was closed while receiving")
 	case e := <-t.envChan:
 		return e, nil
@@ -96,10 +109,18 @@ func (t *inProcessTransport) SetEncryption(context.Context, SessionEncryption) e
 	return errors.New("encryption is not supported by in process transport")
 }
 
+// Connected indicates if the transport is open or still
+// has envelopes from the remote party to be received.
 func (t *inProcessTransport) Connected() bool {
 	t.mu.RLock()
 	defer t.mu.RUnlock()
-	return !t.closed
+	return !t.closed || len(t.envChan) > 0
+}
+
+func (t *inProcessTransport) isClosed() bool {
+	t.mu.RLock()
+	defer t.mu.RUnlock()
+	return t.closed
 }
 
 func (t *inProcessTransport) LocalAddr() net.Addr {
